@@ -97,7 +97,7 @@ def r13_3(ctx):
     fe = nfq.feasible(pcs)
     asks = [pc for pc in fe if any("contains(" in g for g in pc["guards"])]
     high = [pc for pc in fe if gval(pc["guards"], "(item < 64)") is False]
-    ok = bool(asks) and all(gval(pc["guards"], "(item < 64)") is True for pc in asks) and bool(high) and all(any(x.startswith("loop-end(end)") for x in nfq.texts(pc)) for pc in high)
+    ok = bool(asks) and all(gval(pc["guards"], "(item < 64)") is True for pc in asks) and bool(high) and all(any(x.startswith("loop-end(end") for x in nfq.texts(pc)) for pc in high)
     ctx.ob("R13.3", "prefix-scan-bounds-at-64", ok, "bytes >= 64 are never members: contains() is asked only below 64, a byte >= 64 counts as a non-member and the scan goes on")
 
 
